@@ -502,10 +502,18 @@ package res
 //@ ghostvar proc_method string
 //@
 //@
+//@ # nqd: work items appended to the work queue by runWith; nsig: wake-ups (Signal) sent by runWith
+//@ ghostvar nqd int
+//@ ghostvar nsig int
 //@ func (s *Service) runWith(wid string, cb func())
 //@   requires s != nil && cb != nil
 //@   async cb
-//@   modifies res.Service.rwork, res.Service.workqueue, alloc, res.work.s, res.work.wid, res.work.queue, res.work.single, map:res.Service.rwork, elems:res.Service.workqueue, elems:res.work.queue, ghost.wst, ghost.qpos
+//@   # every work item put on the queue is followed by exactly one wake-up, whatever the queue held before (a worker
+//@   # may be idle although the queue is not empty: the previous item may not have been taken yet)
+//@   ghost unlock 2 before :: set nqd = nqd + 1
+//@   ghost signal :: set nsig = nsig + 1
+//@   ensures woken: nsig - old(nsig) == nqd - old(nqd)
+//@   modifies res.Service.rwork, res.Service.workqueue, alloc, res.work.s, res.work.wid, res.work.queue, res.work.single, map:res.Service.rwork, elems:res.Service.workqueue, elems:res.work.queue, ghost.wst, ghost.qpos, ghost.nqd, ghost.nsig
 //@   ghost unlock 2 before :: assert accepted.new: w != nil && len(w.queue) == 1 && w.queue[0] == cb && same(w.wid, wid)
 //@   ghost unlock 2 before :: set wst = store(wst, ref(w), 1)
 //@   ghost unlock 2 before :: set qpos = store(qpos, ref(w), qhead + len(s.workqueue) - 1)
@@ -558,7 +566,7 @@ package res
 //@   ghost call Service.runWith#1 after :: set hrq = hrq + 1
 //@   # every request with a reply subject and a well-formed subject is handed to the worker queue exactly once (whether or not a handler matches)
 //@   ghost exit :: assert handed: hrq == old(hrq) + 1 || (hrq == old(hrq) && (len(m.Reply) == 0 || idx < 0))
-//@   modifies res.Service.rwork, res.Service.workqueue, alloc, res.Match.Handler, res.Match.Listeners, res.Match.Params, res.Match.Group, res.work.s, res.work.wid, res.work.queue, res.work.single, map:res.Service.rwork, elems:res.Service.workqueue, elems:res.work.queue, ghost.wst, ghost.qpos, ghost.hrq
+//@   modifies res.Service.rwork, res.Service.workqueue, alloc, res.Match.Handler, res.Match.Listeners, res.Match.Params, res.Match.Group, res.work.s, res.work.wid, res.work.queue, res.work.single, map:res.Service.rwork, elems:res.Service.workqueue, elems:res.work.queue, ghost.wst, ghost.qpos, ghost.hrq, ghost.nqd, ghost.nsig
 //@   callback onError benign
 //@   ghost call Service.runWith#1 before :: assert split.type: dotFree(rtype) && len(rtype) < len(m.Subject) && m.Subject[0:len(rtype)] == rtype && m.Subject[len(rtype)] == '.'
 //@   ghost call Service.runWith#1 before :: assert split.plain: imp(!(rtype == "call" || rtype == "auth"), len(method) == 0 && m.Subject[len(rtype)+1:] == rname)
@@ -864,6 +872,9 @@ package res
 //@ func (s *Service) Shutdown() (err error)
 //@   requires s != nil && !isNil(s.nc)
 //@   modifies all
+//@   # the connection and the channel are only forgotten once every worker has ended: a callback still running may publish (C03: never panics)
+//@   ghost store nc#1 before :: assert workers.gone: wgcount == 0
+//@   ghost store inCh#1 before :: assert workers.gone: wgcount == 0
 //@   ensures drained: imp(isNil(err), wgcount == 0 && connCloses == old(connCloses) + 1)
 //@   ensures refused: imp(!isNil(err), connCloses == old(connCloses))
 //@
@@ -872,10 +883,44 @@ package res
 //@   ensures same(l, s.logger)
 //@ func parseRID(rid string) (rname string, q string)
 //@   ensures plain: imp(forall(k, 0, len(rid), rid[k] != '?'), same(rname, rid) && len(q) == 0)
+//@   # the name is the part before the first '?', the query everything after it (possibly empty)
+//@   ensures name.noq: forall(k, 0, len(rname), rname[k] != '?')
+//@   ensures name.prefix: len(rname) <= len(rid) && rid[0:len(rname)] == rname
+//@   ensures query: imp(len(rname) < len(rid), rid[len(rname)] == '?' && q == rid[len(rname)+1:]) && imp(len(rname) == len(rid), len(q) == 0)
 //@ func (s *Service) Resource(rid string) (r Resource, err error)
 //@   requires s != nil && muxOK(s.Mux)
 //@   modifies alloc, res.Match.Handler, res.Match.Listeners, res.Match.Params, res.Match.Group, res.resource.rname, res.resource.pathParams, res.resource.query, res.resource.group, res.resource.h, res.resource.listeners, res.resource.s
-//@   ensures imp(isNil(err), !isNil(r))
+//@   ensures imp(isNil(err), !isNil(r) && typeIs(r, "*res.resource") && ptrOf(r, "*res.resource") != nil && ptrOf(r, "*res.resource").s == s)
+//@
+//@ # ---- C01: the exported ways to run a callback hand it to runWith with the worker id of the resource's group
+//@ # dynamic dispatch of Resource.Group: for the dynamic types *resource and *Request the method is (*resource).Group (contract proved above)
+//@ trusted func (r Resource) Group() (g string)
+//@   ensures imp(typeIs(r, "*res.resource"), same(g, ptrOf(r, "*res.resource").group))
+//@   ensures imp(typeIs(r, "*res.Request"), same(g, ptrOf(r, "*res.Request").group))
+//@ func callback.withCB(self ref, r iface)
+//@   modifies all
+//@ func Service.With$1()
+//@   requires cb != nil
+//@   modifies all
+//@   callback cb withCB
+//@ func (s *Service) With(rid string, cb func(r Resource)) (err error)
+//@   requires s != nil && muxOK(s.Mux) && cb != nil
+//@   modifies all
+//@   ghost call Service.runWith#1 before :: assert group: isNil(err) && typeIs(r, "*res.resource") && same(arg_wid, ptrOf(r, "*res.resource").group)
+//@ func (s *Service) WithResource(r Resource, cb func())
+//@   requires s != nil && cb != nil && !isNil(r) && (typeIs(r, "*res.resource") || typeIs(r, "*res.Request"))
+//@   modifies all
+//@   ghost call Service.runWith#1 before :: assert group: imp(typeIs(r, "*res.resource"), same(arg_wid, ptrOf(r, "*res.resource").group)) && imp(typeIs(r, "*res.Request"), same(arg_wid, ptrOf(r, "*res.Request").group))
+//@ func callback.withGroupCB(self ref, s *Service)
+//@   modifies all
+//@ func Service.WithGroup$1()
+//@   requires cb != nil
+//@   modifies all
+//@   callback cb withGroupCB
+//@ func (s *Service) WithGroup(group string, cb func(s *Service))
+//@   requires s != nil && cb != nil
+//@   modifies all
+//@   ghost call Service.runWith#1 before :: assert group: same(arg_wid, group)
 //@
 //@ # ================================================================ ownership and subscriptions (C09)
 //@ props C09
@@ -1112,6 +1157,10 @@ package res
 //@ func (g group) toString(rname string, tokens []string) (s string)
 //@   requires tags: forall(k, 0, len(g), imp(len(g[k].str) == 0, 0 <= g[k].idx && g[k].idx < len(tokens)))
 //@   modifies alloc
+//@   # no group set: the resource name; Parallel (empty group): the empty string; a single literal part: that part
+//@   ensures default: imp(ref(g) == 0, same(s, rname))
+//@   ensures parallel: imp(ref(g) != 0 && len(g) == 0, len(s) == 0)
+//@   ensures literal: imp(len(g) == 1 && len(g[0].str) > 0, same(s, g[0].str))
 //@   loop 1 invariant -1 <= rangeindex && rangeindex < len(g) + 0 && forall(k, 0, len(g), imp(len(g[k].str) == 0, 0 <= g[k].idx && g[k].idx < len(tokens)))
 //@ func matchNode(l *node, toks []string, i int, mi int, nm *nodeMatch) (ok bool)
 //@   requires l != nil && isnode[ref(l)] && WF() && pendm == 0 && nm != nil && 0 <= mi && mi <= i && i < len(toks)
@@ -1132,6 +1181,8 @@ package res
 //@   ensures prefix: imp(mh != nil && len(m.path) > 0, (len(rname) == len(m.path) && rname == m.path) || (len(rname) > len(m.path) && rname[0:len(m.path)] == m.path && rname[len(m.path)] == '.'))
 //@   ghost entry :: use open(m.root)
 //@   ghost call matchNode#1 after :: use open(nm.n)
+//@   # the default group is the full resource name (including the service name), as With/WithGroup callers spell it (C01)
+//@   ghost call group.toString#1 before :: assert full.name: same(arg_rname, rname)
 //@   loop 1 invariant 0 <= start && start <= i && i <= len(subrname) && len(tokens) >= 0 && muxOK(m) && len(subrname) > 0 && ref(tokens) >= old(nextRef())
 //@
 //@ # tokens of a pattern: startOf(p, j) is the position where token j starts, ndots counts the separators
@@ -1240,8 +1291,12 @@ package res
 //@   may_panic
 //@   ensures set: imp(old(ref(n.params)) == 0, same(n.params, params))
 //@   ensures kept: imp(old(ref(n.params)) != 0, same(n.params, old(n.params)))
+//@   # on return the placeholders of the node are those of the pattern being registered: same names at the same token positions
+//@   # (a pattern that reaches the node with a placeholder name at another position is rejected by panic)
+//@   ensures agree: len(n.params) == len(params) && forall(k, 0, len(params), n.params[k].name == params[k].name && n.params[k].idx == params[k].idx)
 //@   ensures others: forallint(x, imp(x != ref(n), same(asptr(x, "*res.node").params, old(asptr(x, "*res.node").params))))
 //@   loop 1 invariant -1 <= rangeindex && rangeindex < len(params) + 0 && len(n.params) == len(params) && same(n.params, old(n.params)) && ref(n.params) != 0
+//@   loop 1 invariant sofar: forall(k, 0, rangeindex + 1, n.params[k].name == params[k].name && n.params[k].idx == params[k].idx)
 //@ func (m *Mux) AddListener(pattern string, handler func(*Event))
 //@   requires muxOK(m) && nlit[ref(m.root)] && 0 < ref(m.root) && ref(m.root) < nextRef()
 //@   requires fresh: forallge(q, nextRef(), !isnode[q])
@@ -1392,6 +1447,27 @@ package res
 //@   requires muxOK(s.Mux)
 //@   modifies all
 //@   ensures muxOK(s.Mux)
+//@ ghostvar startcas bool
+//@ # ---- start: the state machine. A service that is not stopped refuses to start and stays in the state it is in (C03)
+//@ trusted func (nc *nats.Conn) SetReconnectHandler(cb nats.ConnHandler)
+//@   ensures true
+//@ trusted func (nc *nats.Conn) SetDisconnectHandler(cb nats.ConnHandler)
+//@   ensures true
+//@ trusted func (nc *nats.Conn) SetClosedHandler(cb nats.ConnHandler)
+//@   ensures true
+//@ func (s *Service) Serve(conn Conn) (err error)
+//@   thread init
+//@   requires s != nil && !isNil(conn) && muxOK(s.Mux) && s.inChannelSize >= 0 && s.workerCount >= 0 && forallge(q, nextRef(), !chclosed[q])
+//@   requires path: pvalid0(s.Mux.path) && forall(k, 0, len(s.Mux.path), !wildAt(s.Mux.path, k))
+//@   requires ownR: imp(ref(s.resetResources) != 0, ownOK(s.resetResources))
+//@   requires ownA: imp(ref(s.resetAccess) != 0, ownOK(s.resetAccess))
+//@   modifies all
+//@   # the only state transition Serve attempts is stopped -> starting, by compare-and-swap (a refused start writes nothing);
+//@   # when it is refused nothing is started
+//@   ghost entry :: set startcas = false
+//@   ghost call CompareAndSwapInt32#1 after :: assert start.transition: arg_old == stateStopped && arg_new == stateStarting
+//@   ghost call CompareAndSwapInt32#1 after :: set startcas = arg_res
+//@   ghost call Service.serve#1 before :: assert accepted.only: startcas
 //@ func (s *Service) serve(nc Conn) (rerr error)
 //@   thread init
 //@   requires s != nil && !isNil(nc) && muxOK(s.Mux) && s.inChannelSize >= 0 && s.workerCount >= 0 && forallge(q, nextRef(), !chclosed[q])
